@@ -494,7 +494,13 @@ impl Stats {
                     }
                 }
             }
-            Prop::C05 => req.push("probe.pending_poll_with_refs_outstanding".into()),
+            Prop::C05 => {
+                req.push("probe.pending_poll_with_refs_outstanding".into());
+                if self.evaluations >= 100_000 {
+                    req.push("fault.late_poll_more_than_64_events_between_polls".into());
+                    req.push("fault.mid_poll_ref_drop_in_waker_registration".into());
+                }
+            }
             Prop::C06 => req.push("probe.idle_points_evaluated".into()),
             Prop::C10 => req.push("probe.limit_reached_exactly".into()),
             Prop::C15 => req.push("probe.prefix_run_aborted".into()),
